@@ -79,6 +79,9 @@ func genFront(prop string) fw.Generator {
 			for i := 0; i < reps; i++ {
 				add(frontDesc{Kind: "concurrent", N: 2 + i%3})
 			}
+			// the extra callers arrive after the runtime's reply was sent, before the runtime is back at next
+			add(frontDesc{Kind: "concurrent", N: 2, Arg: "after-response"})
+			add(frontDesc{Kind: "concurrent", N: 3, Arg: "after-response"})
 		case "C14":
 			add(frontDesc{Kind: "oversize"})
 		case "C16":
@@ -143,6 +146,7 @@ func runFront(c *fw.Ctx, d frontDesc) {
 		Body        []byte
 	}
 	var mu sync.Mutex
+	responded := false
 	var got []seen
 	respFor := func(ev []byte) []byte {
 		if len(ev) > 1<<20 {
@@ -181,6 +185,15 @@ func runFront(c *fw.Ctx, d frontDesc) {
 			}
 			if d.Kind == "oversize" && n == 0 {
 				pt.Respond(ev.ReqID(), make([]byte, 6*1024*1024+101), nil)
+				return nil
+			}
+			if d.Kind == "concurrent" && mode == "after-response" && n == 0 {
+				// answer at once, come back for the next event only later: the invocation stays in flight meanwhile
+				pt.Respond(ev.ReqID(), respFor(ev.Body), nil)
+				mu.Lock()
+				responded = true
+				mu.Unlock()
+				p.Sleep(120 * time.Millisecond)
 				return nil
 			}
 			if d.Kind == "concurrent" {
@@ -293,11 +306,17 @@ func runFront(c *fw.Ctx, d frontDesc) {
 		for time.Now().Before(dl) {
 			mu.Lock()
 			n := len(got)
+			if mode == "after-response" && !responded {
+				n = 0
+			}
 			mu.Unlock()
 			if n > 0 {
 				break
 			}
 			time.Sleep(200 * time.Microsecond)
+		}
+		if mode == "after-response" {
+			time.Sleep(10 * time.Millisecond) // the reply has been sent; the runtime is not back at next for another ~100 ms
 		}
 		for i := 1; i < d.N; i++ {
 			wg.Add(1)
